@@ -161,3 +161,8 @@ def check(repo, res, tier):
         g = cls.methods.get(m)
         res.check(g is not None and g.params[1] == "theta", "R-WIRE", g or f, "signature(%s)" % m, "%s(theta, ...) takes the optimisation variable first" % m,
                   "%s does not take theta as its first argument" % m)
+    # upstream of the objective: the constructor keeps names, indices and data columns in the caller's order (shared with C06)
+    from . import C06
+    res.rule("R-KV", "the objective fit minimises is built from names / data columns stored in the caller's order")
+    n_ok = C06._ctor(repo, res, cls)
+    res.floor("constructor cases interpreted", n_ok, 11)
